@@ -146,12 +146,15 @@ func mUpsert(pm *peerModel, tag string, f func(int) int, now time.Time) {
 
 func drawUpsertFn(rt *rapid.T) (string, func(int) int) {
 	k := rapid.IntRange(-3, 6).Draw(rt, "k")
-	switch rapid.IntRange(0, 2).Draw(rt, "fn") {
-	case 0:
+	switch rapid.IntRange(0, 6).Draw(rt, "fn") {
+	case 0, 1:
 		return fmt.Sprintf("x+%d", k), func(v int) int { return v + k }
-	case 1:
+	case 2, 3:
 		return "2x", func(v int) int { return 2 * v }
-	default:
+	case 4, 5:
+		return fmt.Sprintf("=%d", k), func(int) int { return k }
+	default: // a value from the whole int range
+		k = drawWide(rt)
 		return fmt.Sprintf("=%d", k), func(int) int { return k }
 	}
 }
@@ -253,7 +256,8 @@ func (w *world) stepUpsertOverlap(rt *rapid.T) {
 	}
 	switch kind {
 	case "tag":
-		t2, val := tag2(), rapid.IntRange(-5, 12).Draw(rt, "val")
+		t2 := tag2()
+		val := w.drawVal(rt, p, t2, -5, 12)
 		s.desc, s.sameTag = fmt.Sprintf("TagPeer(p%d,%s,%d)", pi, t2, val), t2 == tag
 		s.run = func() { w.cm.TagPeer(p.id, t2, val) }
 		s.model = func(pm *peerModel, now time.Time) { pm.touch(now); pm.static[t2] = val }
@@ -364,6 +368,7 @@ func (w *world) upsertOverlapped(p *peerModel, tag, fname string, f func(int) in
 	a := p.clone()
 	mUpsert(a, tag, f, now)
 	valueAfterUpsert := a.total()
+	_, fitsAfterUpsert := a.exactTotal()
 	apply(a)
 	b := p.clone()
 	apply(b)
@@ -463,6 +468,7 @@ func (w *world) upsertOverlapped(p *peerModel, tag, fname string, f func(int) in
 	for i := range after {
 		if after[i].idx == p.idx {
 			after[i].vlo, after[i].vhi = valueAfterUpsert, valueAfterUpsert
+			after[i].unrep = !fitsAfterUpsert
 		}
 	}
 	use := after
